@@ -24,9 +24,9 @@ C13OK(rec) ==
 C15OK(rec) == rec.op = "clear" => C13OK(rec)
 VARIABLE i
 Judge(rec) ==
-    /\ (Level # 2 \/ C15OK(rec) \/ PrintT(<<"L2FAIL", "C15", rec.id>>))
-    /\ (Level # 2 \/ C13OK(rec) \/ PrintT(<<"L2FAIL", "C13", rec.id>>))
-    /\ (Level # 1 \/ StepOK(rec) \/ PrintT(<<"L1DRIFT", "slist", rec.id>>))
+    /\ (IF Level # 2 \/ C15OK(rec) THEN TRUE ELSE PrintT(<<"L2FAIL", "C15", rec.id>>))
+    /\ (IF Level # 2 \/ C13OK(rec) THEN TRUE ELSE PrintT(<<"L2FAIL", "C13", rec.id>>))
+    /\ (IF Level # 1 \/ StepOK(rec) THEN TRUE ELSE PrintT(<<"L1DRIFT", "slist", rec.id>>))
 TInit == i = 1
 TNext == i < Len(Recs) /\ i' = i + 1 /\ Judge(Recs[i + 1])
 TSpec == TInit /\ [][TNext]_i
